@@ -37,12 +37,12 @@ ASSUMPTIONS = [
 ]
 
 SLOTS = W.TARGET_ORDER + ["pipeline", "pipeline", "pipeline", "qurm", "gcrm"]  # F25/F26 anchors get a double share
-N = {"quick": 1500, "thorough": 24000}
+N = {"quick": 1500, "thorough": 16000}
 SHARD_TIMEOUT = {"quick": 600, "thorough": 5400}
 
 
 def plan(tier, seed):
-    return simple_plan(PROPERTY, tier, seed, N["quick"], N["thorough"])
+    return simple_plan(PROPERTY, tier, seed, N["quick"], N["thorough"], shards_quick=16)
 
 
 def run_shard(spec, res):
@@ -215,8 +215,8 @@ def thresholds(m):
         if c.get(f"compile:{t}:returned", 0) < 30:
             out.append(f"fewer than 30 returned compilations for {t} ({c.get(f'compile:{t}:returned', 0)})")
     for t in ("cerm", "ncrm", "qurm", "utfr", "btrm", "gcrm", "tcrm", "uinrm", "dcrm"):
-        if c.get(f"kind_changed:{t}", 0) < 10:
-            out.append(f"fewer than 10 compilations where {t} changed the kind ({c.get(f'kind_changed:{t}', 0)})")
+        if c.get(f"kind_changed:{t}", 0) < 5:
+            out.append(f"fewer than 5 compilations where {t} changed the kind ({c.get(f'kind_changed:{t}', 0)})")
     if c.get("pipeline:selected", 0) < 40:
         out.append(f"fewer than 40 factory pipelines selected ({c.get('pipeline:selected', 0)})")
     if c.get("pipeline:ran", 0) < 20:
